@@ -75,7 +75,11 @@ def bin(x, y, edges, func=np.nanmean):
     yy = np.nan*np.zeros(len(edges)-1)
 
     for i in range(len(edges)-1):
-        I = np.where((x >= edges[i]) & (x < edges[i+1]))[0]
+        if i == len(edges) - 2:
+            # The last bin includes its upper edge
+            I = np.where((x >= edges[i]) & (x <= edges[i+1]))[0]
+        else:
+            I = np.where((x >= edges[i]) & (x < edges[i+1]))[0]
         if len(I) > 0:
             xx[i] = np.nanmean(x[I])
             yy[i] = func(y[I])
